@@ -93,6 +93,7 @@ def check(ctx):
                             bk = 'overwritten'          # same content up to the final newline: the file itself
                         ops.append('xml_hf %d %d %d %s' % (file_ok, complete, empty_sc, 'ok' if with_backup else 'none'))
                         reals.append('%s %s' % (used, bk))
+        crash_histories(ctx, xc, protos, xml_handler, r, tmp)
         ctx.sample({'file_bytes': n, 'offsets_explored': len(offsets), 'example_cut': doc[:60]})
         ctx.exhaustive = bool(ctx.thorough)
     finally:
@@ -110,6 +111,74 @@ def check(ctx):
                 ctx.disagree(o, m, rl)
     except Exception as e:
         ctx.oblige('correspondence_driver', False, str(e)[:300])
+
+
+def crash_histories(ctx, xc, protos, xml_handler, r, tmp):
+    """multi-step crash histories on one file: complete saves, saves interrupted at an offset (the REAL save runs, then
+    the main file is cut, as a crash inside the write would leave it) and loads, in every order up to length 4 (quick) / 5.
+    After EVERY step: a load returns the tree of some completely written document or raises; the backup file, if there
+    is one, holds a completely written document - never a damaged one."""
+    import itertools
+    path = os.path.join(tmp, 'hist.xml')
+    docs = []
+    for k in range(2):
+        xc.apply_settings(protos, xc.rand_settings(protos, r), 'http://h/%d?a&b' % k)
+        xc.save_config(path)
+        docs.append(open(path).read())
+    n = min(len(d) for d in docs)
+    cuts = [r.randrange(40, 400), next((i + 1 for i, ch in enumerate(docs[0]) if ch == '\n' and i > 300), 350), n // 2, n - 5]
+    letters = ['S0', 'S1', 'L'] + ['I%d' % i for i in range(len(cuts))]
+    depth = 4 if not ctx.thorough else 5
+    hists = [h for h in itertools.product(letters, repeat=depth) if any(x[0] == 'I' for x in h)]
+    if not ctx.thorough:
+        hists = r.sample(hists, min(len(hists), 150))
+    hists.insert(0, ('S0', 'I1', 'L', 'S1'))          # interrupted save, recovery load, save again
+    hists.insert(0, ('S0', 'I1', 'L', 'I2', 'L'))
+    good = {d.rstrip() for d in docs}
+    sigs = {tree_sig(xml_handler.XMLRootElement.from_string(d)) for d in docs}
+
+    def save(k):
+        xc.apply_settings(protos, xc.rand_settings(protos, vlib.rng('c18h', k)), 'http://h/%d?a&b' % k)
+        xc.save_config(path)
+
+    for h in hists:
+        for f in (path, path + '.backup'):
+            if os.path.exists(f):
+                os.remove(f)
+        ctx.count(('history', h))
+        for step, ev in enumerate(h):
+            try:
+                if ev[0] == 'S':
+                    save(int(ev[1]))
+                    good.add(open(path).read().rstrip())
+                    sigs.add(tree_sig(xml_handler.XMLRootElement.from_string(open(path).read())))
+                elif ev[0] == 'I':
+                    save(step % 2)
+                    full = open(path).read()
+                    good.add(full.rstrip())
+                    sigs.add(tree_sig(xml_handler.XMLRootElement.from_string(full)))
+                    cutdoc = full[:min(cuts[int(ev[1])], len(full) - 3)]       # always a proper prefix that loses part of the closing tag
+                    open(path, 'w').write(cutdoc)
+                else:
+                    if not os.path.exists(path):
+                        continue
+                    try:
+                        root = xml_handler.XMLRootElement.handle_file(path)
+                    except Exception:
+                        root = None
+                    if root is not None and tree_sig(root) not in sigs:
+                        ctx.violation('handle_file', 'partial-configuration-loaded', 'history %s: the load at step %d silently returned %d protocol elements (no completely written document has that content)' % (
+                            ' '.join(h), step, len(root)), dict(history_len=len(h), kind='history'), input=dict(history=list(h), cuts=cuts, step=step))
+                        break
+            except Exception as e:
+                ctx.notes.append('crash history %s step %d: %s' % (h, step, type(e).__name__))
+                break
+            if os.path.exists(path + '.backup'):
+                b = open(path + '.backup').read().rstrip()
+                if b not in good:
+                    ctx.violation('write_file/handle_file', 'backup-overwritten', 'history %s: after step %d (%s) the backup holds a damaged document (%d bytes, not one that was ever completely written)' % (
+                        ' '.join(h), step, ev, len(b)), dict(history_len=len(h), kind='history'), input=dict(history=list(h), cuts=cuts, step=step))
+                    break
 
 
 def replay(path):
